@@ -27,6 +27,9 @@ pub struct LuaParser<'a> {
     paren_depth: usize,
     ternary_paren_depth: usize,
     syntax_level: usize,
+    /// verif hook: operation trace of the doc parser (see `LuaDocParser::verif_op`)
+    #[cfg(feature = "verif")]
+    pub(crate) verif_doc_trace: Vec<String>,
 }
 
 impl MarkerEventContainer for LuaParser<'_> {
@@ -69,6 +72,8 @@ impl<'a> LuaParser<'a> {
             paren_depth: 0,
             ternary_paren_depth: 0,
             syntax_level: 0,
+            #[cfg(feature = "verif")]
+            verif_doc_trace: Vec::new(),
         };
 
         parse_chunk(&mut parser);
@@ -422,10 +427,44 @@ impl<'a> LuaParser<'a> {
             paren_depth: 0,
             ternary_paren_depth: 0,
             syntax_level: 0,
+            #[cfg(feature = "verif")]
+            verif_doc_trace: Vec::new(),
         };
         parse_chunk(&mut parser);
         let mark_level = parser.mark_level;
         (lexer_tokens, parser.events, mark_level)
+    }
+
+    /// verif hook: like `verif_parse_events`, plus the operation trace of every doc-parser run
+    /// (one `G…` line per comment group followed by its operations, see `LuaDocParser::verif_op`).
+    pub fn verif_parse_doc_trace(
+        text: &'a str,
+        config: ParserConfig,
+    ) -> (Vec<LuaTokenData>, Vec<MarkEvent>, Vec<String>) {
+        let mut errors: Vec<LuaParseError> = Vec::new();
+        let tokens = {
+            let mut lexer =
+                LuaLexer::new(Reader::new(text), config.lexer_config(), Some(&mut errors));
+            lexer.tokenize()
+        };
+        let lexer_tokens = tokens.clone();
+        let mut parser = LuaParser {
+            text,
+            events: Vec::new(),
+            tokens,
+            token_index: 0,
+            current_token: LuaTokenKind::None,
+            parse_config: config,
+            mark_level: 0,
+            errors: &mut errors,
+            ternary_depth: 0,
+            paren_depth: 0,
+            ternary_paren_depth: 0,
+            syntax_level: 0,
+            verif_doc_trace: Vec::new(),
+        };
+        parse_chunk(&mut parser);
+        (lexer_tokens, parser.events, parser.verif_doc_trace)
     }
 }
 
@@ -494,6 +533,8 @@ mod tests {
             paren_depth: 0,
             ternary_paren_depth: 0,
             syntax_level: 0,
+            #[cfg(feature = "verif")]
+            verif_doc_trace: Vec::new(),
         };
         parser.init();
 
